@@ -52,7 +52,7 @@ def parseFormat (s : String) : Nuts.C01.Format :=
 
 def parseStatus (j : Json) : Status :=
   let s : Status := { id := jStr j "id", typ := jStr j "typ", purpose := jStr j "purpose", listCred := jStr j "listCred",
-                      index := (optInt j "index").map Int.toNat, entryValid := jBool j "entryValid" }
+                      indexText := (if jHas j "indexText" then jStr j "indexText" else match optInt j "index" with | some i => toString i | none => "x"), entryValid := jBool j "entryValid" }
   -- since the deepening round the verdict of StatusList2021Entry.Validate is COMPUTED by the model for StatusList2021Entry statuses
   if jHas j "urlOK" && s.typ == statusListEntryType then { s with entryValid := entryValidOf (jBool j "unmarshals") (jBool j "urlOK") { s with id := jStr j "entryId" } } else s
 
